@@ -47,6 +47,12 @@ Theorem C01_unroutable_silent : forall st pkts,
 Proof. exact unroutable_silent. Qed.
 Print Assumptions C01_unroutable_silent.
 
+Theorem C01_unroutable_silent_fault : forall st pkts q k,
+  Forall (fun p => route (s_tbl st) p = None) pkts ->
+  step st (TunBatchFault pkts q k) = (st, []).
+Proof. exact unroutable_silent_fault. Qed.
+Print Assumptions C01_unroutable_silent_fault.
+
 Theorem C01_classify_none_unroutable : forall tbl p, classify p = None -> route tbl p = None.
 Proof. exact classify_none_unroutable. Qed.
 Print Assumptions C01_classify_none_unroutable.
@@ -101,7 +107,8 @@ Theorem C01_routed_to_lpm_owner : forall st evs p ep rcv ctr pk mtu, clean st ->
   In (OData p ep rcv ctr pk mtu) (concat (outs step st evs)) ->
   pk = [] \/
   (route (s_tbl st) pk = Some p /\
-   (exists batch, In (TunBatch batch) evs /\ In pk batch) /\
+   (exists batch, (In (TunBatch batch) evs \/ exists q k, In (TunBatchFault batch q k) evs) /\
+                  In pk batch) /\
    exists f, classify pk = Some f /\ lpm_spec (s_tbl st) f (be_val (dst_of f pk)) (Some p)).
 Proof. exact routed_to_lpm_owner. Qed.
 Print Assumptions C01_routed_to_lpm_owner.
@@ -113,6 +120,11 @@ Theorem C01_down_drops : forall st pkts,
 Proof. exact down_drops. Qed.
 Print Assumptions C01_down_drops.
 
+Theorem C01_down_drops_fault : forall st pkts q k,
+  s_up st = false -> step st (TunBatchFault pkts q k) = (st, []).
+Proof. exact down_drops_fault. Qed.
+Print Assumptions C01_down_drops_fault.
+
 Theorem C01_down_clears : forall st,
   Forall (fun p => p_sess p = None /\ p_staged p = [] /\ p_init_out p = false)
          (s_peers (fst (step st Down))) /\
@@ -123,6 +135,22 @@ Print Assumptions C01_down_clears.
 Theorem C01_up_silent : forall st, snd (step st Up) = [] /\ s_up (fst (step st Up)) = true.
 Proof. exact up_silent. Qed.
 Print Assumptions C01_up_silent.
+
+(* ------------------------------------------------------------ bind.Send errors *)
+
+(* A send error toward peer q: the state evolves as without the error, every
+   other peer's datagrams are unchanged, and of peer q's datagrams exactly the
+   first k are transmitted (the rest is never transmitted: the state is the
+   same as if all had been). *)
+Theorem C01_fault_transmits_prefix : forall st pkts q k,
+  let '(st1, o1) := step st (TunBatch pkts) in
+  let '(st2, o2) := step st (TunBatchFault pkts q k) in
+  st2 = st1 /\
+  (forall i, filter (fun x => out_peer x =? i) o2 =
+             if i =? q then firstn (N.to_nat k) (filter (fun x => out_peer x =? i) o1)
+             else filter (fun x => out_peer x =? i) o1).
+Proof. exact fault_transmits_prefix. Qed.
+Print Assumptions C01_fault_transmits_prefix.
 
 (* ------------------------------------------------------------------ non-vacuity *)
 
@@ -175,4 +203,11 @@ Example C01_nonvacuous_down_up :
   outs step (ex_st (Some 3)) [RefHs 1 7 3; Down; TunBatch [ex_pkt]; Up; TunBatch [ex_pkt];
                               AnswerHs 1 9 4]
   = [[OResp 1 3 7]; []; []; []; [OInit 1 3]; [OData 1 4 9 0 ex_pkt 1420]].
+Proof. vm_compute. reflexivity. Qed.
+
+(* A send error after the first of two datagrams: counter 1 is consumed but
+   never transmitted, the next batch continues with counter 2. *)
+Example C01_nonvacuous_fault :
+  outs step (ex_st None) [RefHs 1 7 3; TunBatchFault [ex_pkt; ex_pkt] 1 1; TunBatch [ex_pkt]]
+  = [[OResp 1 3 7]; [OData 1 3 7 0 ex_pkt 1420]; [OData 1 3 7 2 ex_pkt 1420]].
 Proof. vm_compute. reflexivity. Qed.
